@@ -60,12 +60,13 @@ def generate(ctx):
     for s in STR_BYTES + [rand_bytes(rng, 16) for _ in range(80 if quick else 500)]:
         rt(PN(T_OBJECT, ch=[PN(T_STRING, vs=s, key=s[-5:])]), 'string', fmts=(rng.choice([0, 1]),))
     for t in last_token_trees()[:: (5 if quick else 1)]: rt(t, 'last-token', fmts=(rng.choice([0, 1]),))
-    for depth, kind in ((10, 0), (30, T_ARRAY), (999, T_ARRAY), (1000, T_ARRAY)) + (() if quick else ((200, T_ARRAY), (60, T_OBJECT), (1001, T_ARRAY))):
+    NL = nesting_limit(ctx['repo'])
+    for depth, kind in ((10, 0), (30, T_ARRAY), (NL - 1, T_ARRAY), (NL, T_ARRAY)) + (() if quick else ((200, T_ARRAY), (60, T_OBJECT), (NL + 1, T_ARRAY))):
         rt(nested(depth, kind), 'nested', fmts=(0,) if depth > 100 else (0, 1))
     # shallow but WIDE trees: more empty / small containers than the parser's nesting limit (its depth counter must come back after each)
     if ctx.get('seed_index', 0) == 0:
         for unit in (lambda: PN(T_ARRAY), lambda: PN(T_OBJECT), lambda: PN(T_ARRAY, ch=[PN(T_NUMBER, vi=1, vd=1.0)])):
-            rt(PN(T_ARRAY, ch=[unit() for _ in range(1003)]), 'wide', fmts=(0,))
+            rt(PN(T_ARRAY, ch=[unit() for _ in range(NL + 3)]), 'wide', fmts=(0,))
     # independence of prebuffer and allocator: every boundary on fixed trees
     fixed = [PN(T_ARRAY, ch=[PN(T_STRING, vs=b'a"\x01\n\xff'), PN(T_NUMBER, vi=1, vd=1.5), PN(T_OBJECT, ch=[PN(T_ARRAY, key=b'k'), PN(T_OBJECT, key=b'')])]),
              PN(T_OBJECT, ch=[PN(T_STRING, vs=b'x' * 250, key=b'long'), PN(T_NUMBER, vi=0, vd=1e-5, key=b'n')]),
@@ -127,7 +128,7 @@ def verdict(c, out, ctx):
     parts = out.split(' | ')
     first = None if parts[0].split(' ')[0] == 'NULL' else unhx(parts[0])
     if first != exp: return 'printed %r, expected %r' % (first and first[:60], exp and exp[:60])
-    if not c.info.get('wf') or tree_depth(tree) > 1000: return None
+    if not c.info.get('wf') or tree_depth(tree) > nesting_limit(ctx['repo']): return None
     if first is None: return 'printing a well-formed tree failed'
     if len(parts) != 3: return 'malformed output'
     if parts[1].startswith('NULL'): return 'printed text %r does not parse back' % first[:80]
